@@ -45,7 +45,7 @@ def confirm(seed):
                      cwd=wt, env=env)
         m = re.search(r'(\d+) passed', out)
         res['tests_passed'] = int(m.group(1)) if m else 0
-        res['tests_ok'] = rc == 0 and res['tests_passed'] == 345
+        res['tests_ok'] = rc == 0 and res['tests_passed'] >= 345   # a change may bring tests of its own; the pinned 345 must still pass (rc 0)
         if not res['tests_ok']:
             res['tests_tail'] = out[-600:]
         rc1, out1 = sh([PY, demo], cwd=wt, env=env, timeout=600)
